@@ -102,8 +102,10 @@ def _precision_value(rng):
     """Mostly six orders of magnitude around one; sometimes far in either tail or exactly at a round bound (a posterior
     sample is a value object: nothing restricts the precision it carries to what a sampler with data would produce)."""
     u = float(rng.random())
-    if u < 0.85:
-        return 10 ** rng.uniform(-3, 3)
+    if u < 0.8:
+        return float(10 ** rng.uniform(-3, 3))
+    if u < 0.88:  # a precision is a number: an integer-typed one (hand-built sample, some file round trips) included
+        return [4, 100, 1, np.int64(3), np.int32(7)][int(rng.integers(0, 5))]
     return float(rng.choice([1e-12, 3e-7, 1e-6, 1e6, 2.5e6, 1e9, 1e12]))
 
 
@@ -114,7 +116,7 @@ def make_sdc_theta(rng, n_samp, n_treat, D, scale=1.0, precision=None):
         W=_special_values(rng, rng.normal(0, scale, (n_samp, D))), W0=_special_values(rng, rng.normal(0, scale, (n_samp,))),
         V2=_special_values(rng, rng.normal(0, scale, (n_treat, D))), V1=_special_values(rng, rng.normal(0, scale, (n_treat, D))),
         V0=_special_values(rng, rng.normal(0, scale, (n_treat,))), alpha=float(rng.normal(0, scale)),
-        precision=float(precision if precision is not None else _precision_value(rng)))
+        precision=(float(precision) if precision is not None else _precision_value(rng)))
 
 
 def make_sdci_theta(rng, n_samp, n_treat, D, lookup, scale=1.0, precision=None):
@@ -122,7 +124,7 @@ def make_sdci_theta(rng, n_samp, n_treat, D, lookup, scale=1.0, precision=None):
 
     return SparseDrugComboInteractionMCMCSample(
         W=_special_values(rng, rng.normal(0, scale, (n_samp, D))), V2=_special_values(rng, rng.normal(0, scale, (n_treat, D))),
-        precision=float(precision if precision is not None else _precision_value(rng)),
+        precision=(float(precision) if precision is not None else _precision_value(rng)),
         single_effect_lookup=lookup)
 
 
